@@ -325,6 +325,9 @@ fn scenario(name: &str) -> Option<Scenario<S>> {
         // two clearing readers at once (a scrape and the periodic upkeep; two snapshotters)
         "S5" => mk("S5-pusher-2clearers", 1, vec![p2(1, 2), body(|s: &S| clear(s)), body(|s: &S| clear(s))]),
         "S5h" => mk("S5h-handover-pusher-2clearers", 63, vec![p2(1, 2), body(|s: &S| clear(s)), body(|s: &S| clear(s))]),
+        // the head block is exactly full when the two clearers meet (no pusher in the way), and with one more push
+        "S5f" => mk("S5f-full-block-2clearers", 64, vec![body(|s: &S| clear(s)), body(|s: &S| clear(s))]),
+        "S5g" => mk("S5g-full-block-pusher-2clearers", 64, vec![p1(1), body(|s: &S| clear(s)), body(|s: &S| clear(s))]),
         _ => return None,
     })
 }
@@ -332,18 +335,18 @@ fn scenario(name: &str) -> Option<Scenario<S>> {
 fn parts(ctx: &Ctx) -> Vec<PartSpec> {
     let mut v = Vec::new();
     if ctx.quick() {
-        for s in ["S1", "S2", "S2b", "S3", "S3b", "S3c", "S4", "S4h", "S5", "S5h"] {
+        for s in ["S1", "S2", "S2b", "S3", "S3b", "S3c", "S4", "S4h", "S5", "S5h", "S5f", "S5g"] {
             v.push(PartSpec::new(&format!("{}-pb2", s), json!({"scn": s, "pb": 2})).budget(120.0));
         }
         // E2: C11 memory model (incl. the epoch reclamation's own atomics), 2 threads at bound 1, 3 threads at bound 0
-        for (s, pb) in [("push_clear", 1), ("push_snap", 1), ("handover_clear", 1), ("full_push_clear", 1), ("handover_push_push", 1), ("push_clear_snap", 0), ("push_clear_clear", 0), ("push_push_clear", 0), ("handover_push_push_clear", 0)] {
+        for (s, pb) in [("push_clear", 1), ("push_snap", 1), ("handover_clear", 1), ("full_push_clear", 1), ("handover_push_push", 1), ("push_clear_snap", 0), ("push_clear_clear", 0), ("full_clear_clear", 1), ("push_push_clear", 0), ("handover_push_push_clear", 0)] {
             v.push(PartSpec::new(&format!("loom-{}-pb{}", s, pb), json!({"loom": s, "pb": pb})).budget(160.0));
         }
     } else {
-        for (s, pb, b) in [("push_clear", 2, 900.0), ("push_snap", 2, 1500.0), ("handover_clear", 2, 1500.0), ("full_push_clear", 2, 1500.0), ("handover_push_push", 2, 1500.0), ("handover_snap", 1, 900.0), ("push_clear_snap", 1, 1500.0), ("push_clear_clear", 1, 1500.0), ("push_push_clear", 1, 1500.0), ("handover_push_push_clear", 1, 1500.0)] {
+        for (s, pb, b) in [("push_clear", 2, 900.0), ("push_snap", 2, 1500.0), ("handover_clear", 2, 1500.0), ("full_push_clear", 2, 1500.0), ("handover_push_push", 2, 1500.0), ("handover_snap", 1, 900.0), ("push_clear_snap", 1, 1500.0), ("push_clear_clear", 1, 1500.0), ("full_clear_clear", 2, 900.0), ("push_push_clear", 1, 1500.0), ("handover_push_push_clear", 1, 1500.0)] {
             v.push(PartSpec::new(&format!("loom-{}-pb{}", s, pb), json!({"loom": s, "pb": pb})).budget(b));
         }
-        for s in ["S1", "S2", "S2b", "S3", "S3b", "S3c", "S3d", "S4", "S4h", "S5", "S5h"] {
+        for s in ["S1", "S2", "S2b", "S3", "S3b", "S3c", "S3d", "S4", "S4h", "S5", "S5h", "S5f", "S5g"] {
             v.push(PartSpec::new(&format!("{}-pb3", s), json!({"scn": s, "pb": 3})).budget(900.0));
         }
         for s in ["S1", "S3", "S2"] {
